@@ -10,7 +10,6 @@ pub use cosmian_cover_crypt::{
 };
 pub use cosmian_crypto_core::bytes_ser_de::Serializable;
 pub use cosmian_crypto_core::Aes256Gcm;
-use cosmian_crypto_core::Dem;
 
 use crate::report::Fail;
 
